@@ -203,7 +203,7 @@ pub fn text_node(cfg: &GenCfg) -> BoxedStrategy<Node> {
 
 /// 0..4 whitespace characters of every kind (plus the occasional non-blank)
 pub fn ws_run() -> BoxedStrategy<String> {
-    proptest::collection::vec(proptest::sample::select(vec![" ", "\t", "\n", "\r", "\r\n", "x", "é"]), 0..=4).prop_map(|v| v.concat()).boxed()
+    proptest::collection::vec(proptest::sample::select(vec![" ", "\t", "\n", "\r", "\r\n", "x", "é", " ", "\n", "\u{a0}", "\u{2028}", "\u{85}", "\u{c}", "\u{3000}"]), 0..=4).prop_map(|v| v.concat()).boxed()
 }
 
 pub const RAW_LOOKALIKES: &[&str] = &["{{ x }}", "{% if %}", "{{", "{% endif", "{%- x -%}", "{{- y -}}", "{% assign x = 1 %}", "{% comment %}", "{% endfor %}", "}}", "%}", "{% if x", "{{ x |"];
